@@ -45,6 +45,12 @@ pub fn check_case(c: &Case) -> CaseResult {
         return r;
     }
     let mut bad = |sig: String, d: String| r.violations.push(Violation::new("C13", sig, d, c));
+    if a.names.duplicates.is_empty() && !b.names.duplicates.is_empty() {
+        bad(
+            format!("name-map-duplicate-or-unsorted:subsection-{}", b.names.duplicates[0].0),
+            format!("the output name section lists indices twice or out of order (subsection id, index): {:?}", b.names.duplicates),
+        );
+    }
     if a.names.module != b.names.module && a.names.module.is_some() {
         bad("name-lost:module".into(), format!("{:?} -> {:?}", a.names.module, b.names.module));
     }
